@@ -46,6 +46,11 @@ VARIANTS = [  # name, family, tag, port, refused blocks, es firmware, group form
 ]
 
 
+# the DT family has the export limit only (another register and unit on single-phase models)
+DT_VARIANTS = [("dt_three", "DT", "DTU", 8899, (), "", "", 0), ("dt_single", "DT", "DSN", 8899, (), "", "", 0),
+               ("dt_three_tcp", "DT", "DTS", 502, (), "", "", 0)]
+
+
 def group_addr(variant, k: int) -> tuple[int, int]:
     """(first register, register count) of eco-mode group k = 1..4: the groups follow each other."""
     glen = 6 if variant[6] == "v2" else 4
@@ -54,12 +59,12 @@ def group_addr(variant, k: int) -> tuple[int, int]:
 
 def inv_spec(variant, prior_hex: str, others_hex: str | None = None) -> dict:
     name, fam, tag, port, refused, fw, fmt, g1 = variant
-    serial = serial_for(tag) if fam == "ET" else "95048ESU000W0000"
+    serial = serial_for(tag) if fam != "ES" else "95048ESU000W0000"
     regs = device_regs(fam, serial, 10000)
-    b = bytes.fromhex(prior_hex)
+    b = bytes.fromhex(prior_hex) if g1 else b""
     for i in range(len(b) // 2):
         regs[g1 + i] = int.from_bytes(b[2 * i:2 * i + 2], "big")
-    if others_hex:
+    if others_hex and g1:
         ob = bytes.fromhex(others_hex)
         for k in (2, 3, 4):
             a, n = group_addr(variant, k)
@@ -71,7 +76,8 @@ def inv_spec(variant, prior_hex: str, others_hex: str | None = None) -> dict:
     return {"family": fam, "port": port, "sim": sim, "retries": 0}
 
 
-def mode_program(variant, prior: str, prior_hex: str, mode: int, power: int, soc: int, others: str = "zeros") -> dict:
+def mode_program(variant, prior: str, prior_hex: str, mode: int, power: int, soc: int, others: str = "zeros",
+                 start_mode: int = 0) -> dict:
     fam = variant[1]
     calls = [{"api": "read_device_info"}, {"api": "get_operation_modes", "args": [True]},
              {"api": "set_operation_mode", "args": [{"opmode": mode}, power, soc]},
@@ -81,9 +87,13 @@ def mode_program(variant, prior: str, prior_hex: str, mode: int, power: int, soc
     # the content of the other groups afterwards, taken from the simulated inverter itself (not through the library's tables)
     calls += [{"api": "sim:read", "args": list(group_addr(variant, k))} for k in (2, 3, 4)]
     pri = V2_PRIORS if variant[6] == "v2" else V1_PRIORS
-    return {"inv": [inv_spec(variant, prior_hex, pri.get(others))], "calls": calls,
-            "case": {"variant": variant[0], "prior": prior, "others": others, "mode": mode, "power": power, "soc": soc,
-                     "fmt": variant[6]}}
+    spec = inv_spec(variant, prior_hex, pri.get(others))
+    # the mode the inverter is in beforehand (work mode register; ES: settings byte 66)
+    spec["sim"]["regs"][47000] = start_mode
+    spec["sim"]["regs"][0x0550 + 33] = start_mode << 8 | start_mode
+    return {"inv": [spec], "calls": calls,
+            "case": {"variant": variant[0], "prior": prior, "others": others, "start": start_mode, "mode": mode, "power": power,
+                     "soc": soc, "fmt": variant[6]}}
 
 
 def limit_program(variant, what: str, value: int) -> dict:
@@ -217,15 +227,17 @@ def check(prop: str, tier: str, seed: int) -> int:
                 for p, s in gg:
                     # the other three groups start empty, as enabled 24/7 groups, or as another enabled schedule
                     others = ("zeros", "charge247", "discharge247" if variant[6] != "v2" else "peak")[len(progs) % 3]
-                    progs.append(mode_program(variant, prior, hx, mode, p, s, others))
+                    progs.append(mode_program(variant, prior, hx, mode, p, s, others, start_mode=(len(progs) // 3) % 6))
     if not quick:
         v = VARIANTS[0]
         for p in range(1, 101):
             for s in range(0, 101, 1 if p % 10 == 0 else 25):
                 progs.append(mode_program(v, "zeros", V2_PRIORS["zeros"], 98, p, s))
-    for variant in VARIANTS:
+    for variant in VARIANTS + DT_VARIANTS:
         for x in [0, 1, 100, 255, 256, 3000, 10000, 32767, 32768, 65534] + [rnd.randrange(65535) for _ in range(5 if quick else 100)]:
             progs.append(limit_program(variant, "export", x))
+        if variant[1] == "DT":
+            continue            # no battery: the DoD calls are documented as unsupported
         for d in range(0, 101, 7 if quick else 1):
             progs.append(limit_program(variant, "dod", d))
     res = engine.parallel_map("harness.checks_modes", "run_mode_program", progs, procs=16, chunk=20)
@@ -247,7 +259,7 @@ def check(prop: str, tier: str, seed: int) -> int:
             if clause.startswith("INFO."):
                 run.cov["families"][clause] = run.cov["families"].get(clause, 0) + 1
                 continue
-            detail = {k: c[k] for k in ("variant", "prior", "others", "mode", "what", "fmt") if k in c}
+            detail = {k: c[k] for k in ("variant", "prior", "others", "start", "mode", "what", "fmt") if k in c}
             if c["kind"] == "mode":
                 detail["got"] = c["got"]
                 detail["getexc"] = c.get("getexc", "")
